@@ -106,6 +106,8 @@ class Shapecheck:
         lax_model.LIST_ELEM.clear()
         import loops
         loops.LOOP_DEPS.clear()
+        import loop_specs
+        loop_specs.KAHN_ROLES.clear()
         if hasattr(I, "_templates"):
             I._templates.clear()
         st = State()
